@@ -421,8 +421,10 @@ def np_reference(o, types, vals, params):
         W = c_promote(types[0])
         xs = [x.astype(NPT[W]) for x in xs]
     elif w == "left":
+        # shifts: the result has the promoted type of the LEFT operand; the (small, non-negative) count is converted to it so that
+        # NumPy does not look for a common type of e.g. int64 and uint64
         W = c_promote(types[0])
-        xs = [xs[0].astype(NPT[W]), xs[1]]
+        xs = [xs[0].astype(NPT[W]), xs[1].astype(NPT[W])]
     elif w == "where":
         W = c_common(*types)
         xs = [xs[0], xs[1].astype(NPT[W]), xs[2].astype(NPT[W])]
@@ -445,6 +447,9 @@ def np_reference(o, types, vals, params):
             else:
                 r = o["ref"](*xl, *[LD(p) for p in ps])
     return np.asarray(r), cls
+
+
+CPP_OPERATOR_TYPE = ("add", "subtract", "multiply", "bitwise_and", "bitwise_or", "bitwise_xor", "left_shift", "right_shift")
 
 
 def case_objects(m):
@@ -547,6 +552,13 @@ def oracle(ctx, cr):
         ctx.violation("%s:malformed_record" % op, "unparsable X section: %s" % e, det)
         return
     # ---- element type
+    # independent rule for the ufuncs that are C++ built-in operators (usual arithmetic conversions; shifts: promoted left operand):
+    # the harness' scalar functor is the library's own, so a functor that yields the wrong type would otherwise agree with itself
+    if o["name"] in CPP_OPERATOR_TYPE and not o["outer"]:
+        want = c_promote(types[0]) if o["w"] == "left" else c_common(*types)
+        if rtag != want:
+            ctx.violation("%s:%s:scalar_result_type" % (op, form), "%s: the scalar operation on (%s) yields %s, C++ %s gives %s" % (
+                op, ",".join(types), rtag, "shift (promoted left operand)" if o["w"] == "left" else "usual arithmetic conversions", want), det)
     if got["tag"] != rtag:
         ctx.violation("%s:%s:type" % (op, form), "%s: element type of the view is %s, the scalar operation yields %s" % (op, got["tag"], rtag), det)
     if atag != rtag:
